@@ -382,7 +382,7 @@ CHECKS["C20"] = {
             "compare_exchange on both paths; the deep copy in cow_guarded::lock; deferred_guarded functors on the direct and on the queued path; "
             "SearchableObjectHolder predicates in find / find+type / remove; DelayedDestructor callbacks). A fault-free dry run counts the "
             "invocations K of the scenario's sites; then for every k = 1..K the k-th invocation throws (throw-point space enumerated completely), "
-            "sequentially under ASan+UBSan and with a concurrent partner thread under the serial and stress engines. Oracles: no shim mutex held "
+            "sequentially under ASan+UBSan and with a concurrent partner thread under the serial and stress engines (stress also under TSan). Oracles: no shim mutex held "
             "by the thrower after unwinding nor at quiescence, exception propagated / captured in the future / swallowed as documented, a further "
             "blocking acquisition by the same and by the partner thread completes, lr_guarded all-or-nothing (throw in 1st application: value "
             "unchanged, in 2nd: completed) with both copies equal, objects unchanged by aborted calls, DelayedDestructor elements still destroyed "
@@ -395,6 +395,7 @@ CHECKS["C20"] = {
         {"variant": "plain", "engine": "serial", "mode": "conc", "procs_quick": 6, "procs_thorough": 12, "rounds_quick": 25, "rounds_thorough": 600},
         {"variant": "asan", "engine": "stress", "mode": "conc", "procs_quick": 3, "procs_thorough": 6, "rounds_quick": 8, "rounds_thorough": 200},
         {"variant": "asan", "engine": "serial", "mode": "conc", "procs_quick": 2, "procs_thorough": 4, "rounds_quick": 8, "rounds_thorough": 200},
+        {"variant": "tsan", "engine": "stress", "mode": "conc", "procs_quick": 3, "procs_thorough": 6, "rounds_quick": 20, "rounds_thorough": 300},
     ],
 }
 
